@@ -67,23 +67,23 @@ type failure struct {
 }
 
 type stats struct {
-	ops       map[string]int
-	checks    int
-	reads     int
-	rootCmp   int
-	reopenCmp int
-	rawScans  int
-	rawVals   int
-	rawTagged int
+	ops             map[string]int
+	checks          int
+	reads           int
+	rootCmp         int
+	reopenCmp       int
+	rawScans        int
+	rawVals         int
+	rawTagged       int
 	replayRootCmp   int
 	replayStoreCmp  int
 	replayStoreKeys int
-	reverted  int
-	dropped   int
-	deadTags  int
-	seqs      int
-	roots     map[string]struct{}
-	maxNest   int
+	reverted        int
+	dropped         int
+	deadTags        int
+	seqs            int
+	roots           map[string]struct{}
+	maxNest         int
 
 	// per-worker reusable resources (a stats object belongs to exactly one goroutine)
 	free []db.DB           // emptied memorydb instances ("fresh store" = a store with no keys)
@@ -136,8 +136,8 @@ type run struct {
 	st       *stats
 	lastOp   string
 	sh       *shadow // replay oracle (shadow.go), built lazily
-	wrote    bool // Commit was called on r.store
-	dry      bool // model-only simulation (enumerator): no real calls
+	wrote    bool    // Commit was called on r.store
+	dry      bool    // model-only simulation (enumerator): no real calls
 }
 
 func newRun(level byte, u *universe, nest int, st *stats) *run {
